@@ -630,3 +630,67 @@ func (s *UtxoStore) VerifWF() bool { return s != nil && s.bucketMeta != nil }
 //@   modifies *
 //@   only removeDoubleSpends deleteRawUnmined existsRawUnmined deleteUnminedCredits FetchBucket
 //@   dbonly existsTxRecord existsBlockRecord putBlockRecord appendRawBlockRecord putRawBlockRecord putTxRecord updateMinedBalance
+
+// ---------------------------------------------------------------------------------------------
+// C08: removing a wallet.  Records of the per-wallet buckets (addresses, unspent coins, staking/binding histories) are
+// keyed by the wallet id first, so "erase the wallet" is "erase by prefix".  deleteByPrefix is complete (no key with
+// the prefix survives) and framed (every key without the prefix keeps its presence and value): wallet ids all have
+// the same length, so no other wallet's key starts with this id.
+//@ func deleteByPrefix
+//@   props C08 C18 C19
+//@   requires ns != nil
+//@   modifies bmap(ns)
+//@   ensures[C08] err == nil ==> forall qs_ string :: hasPrefix(qs_, prefix) ==> !has(bmap(ns), qs_)
+//@   ensures[C08] forall qs_ string :: !hasPrefix(qs_, prefix) ==> has(bmap(ns), qs_) == old(has(bmap(ns), qs_)) && bmap(ns)[qs_] == old(bmap(ns)[qs_])
+//@   ensures forall qs_ string :: has(bmap(ns), qs_) ==> old(has(bmap(ns), qs_)) && bmap(ns)[qs_] == old(bmap(ns)[qs_])
+//@   loop#1 invariant forall qj_ int :: 0 <= qj_ && qj_ < iter_ ==> !has(bmap(ns), strOf(entries[qj_].Key))
+//@   loop#1 invariant forall qs_ string :: !hasPrefix(qs_, prefix) ==> has(bmap(ns), qs_) == old(has(bmap(ns), qs_)) && bmap(ns)[qs_] == old(bmap(ns)[qs_])
+//@   loop#1 invariant forall qs_ string :: has(bmap(ns), qs_) ==> old(has(bmap(ns), qs_)) && bmap(ns)[qs_] == old(bmap(ns)[qs_])
+
+//@ func (*UtxoStore).RemoveAddressByWalletId
+//@   props C08 C18 C19
+//@   requires s != nil && s.bucketMeta != nil && tx != nil
+//@   modifies bmapI(B(tx, s.bucketMeta.nsAddresses))
+//@   ensures[C08] err == nil && len(walletId) > 0 ==> forall qs_ string :: hasPrefix(qs_, walletId) ==> !has(bmapI(B(tx, s.bucketMeta.nsAddresses)), qs_)
+//@   ensures[C08] forall qs_ string :: !hasPrefix(qs_, walletId) ==> has(bmapI(B(tx, s.bucketMeta.nsAddresses)), qs_) == old(has(bmapI(B(tx, s.bucketMeta.nsAddresses)), qs_)) && bmapI(B(tx, s.bucketMeta.nsAddresses))[qs_] == old(bmapI(B(tx, s.bucketMeta.nsAddresses))[qs_])
+
+//@ func (*UtxoStore).RemoveUnspentByWalletId
+//@   props C08 C18 C19
+//@   requires s != nil && s.bucketMeta != nil && tx != nil
+//@   modifies bmapI(B(tx, s.bucketMeta.nsUnspent))
+//@   ensures[C08] err == nil && len(walletId) > 0 ==> forall qs_ string :: hasPrefix(qs_, walletId) ==> !has(bmapI(B(tx, s.bucketMeta.nsUnspent)), qs_)
+//@   ensures[C08] forall qs_ string :: !hasPrefix(qs_, walletId) ==> has(bmapI(B(tx, s.bucketMeta.nsUnspent)), qs_) == old(has(bmapI(B(tx, s.bucketMeta.nsUnspent)), qs_)) && bmapI(B(tx, s.bucketMeta.nsUnspent))[qs_] == old(bmapI(B(tx, s.bucketMeta.nsUnspent))[qs_])
+
+//@ func (*UtxoStore).RemoveGameHistoryByWalletId
+//@   props C08 C18 C19
+//@   requires s != nil && s.bucketMeta != nil && tx != nil && distinctBkts(tx, s.bucketMeta.nsGameHistory, s.bucketMeta.nsUnminedGameHistory)
+//@   modifies bmapI(B(tx, s.bucketMeta.nsGameHistory)), bmapI(B(tx, s.bucketMeta.nsUnminedGameHistory))
+//@   ensures[C08] err == nil && len(walletId) > 0 ==> forall qs_ string :: hasPrefix(qs_, walletId) ==> !has(bmapI(B(tx, s.bucketMeta.nsGameHistory)), qs_) && !has(bmapI(B(tx, s.bucketMeta.nsUnminedGameHistory)), qs_)
+//@   ensures[C08] forall qs_ string :: !hasPrefix(qs_, walletId) ==> has(bmapI(B(tx, s.bucketMeta.nsGameHistory)), qs_) == old(has(bmapI(B(tx, s.bucketMeta.nsGameHistory)), qs_)) && bmapI(B(tx, s.bucketMeta.nsGameHistory))[qs_] == old(bmapI(B(tx, s.bucketMeta.nsGameHistory))[qs_])
+//@   ensures[C08] forall qs_ string :: !hasPrefix(qs_, walletId) ==> has(bmapI(B(tx, s.bucketMeta.nsUnminedGameHistory)), qs_) == old(has(bmapI(B(tx, s.bucketMeta.nsUnminedGameHistory)), qs_)) && bmapI(B(tx, s.bucketMeta.nsUnminedGameHistory))[qs_] == old(bmapI(B(tx, s.bucketMeta.nsUnminedGameHistory))[qs_])
+
+// A transaction may be dropped together with the wallet being removed only if none of its outputs belongs to another
+// managed wallet -- current or not: every output with a supported script either pays the removed wallet (its script
+// hash is in the set) or an address that no managed keystore holds.
+// parseable(b): the consensus templates the wallet reads (classes 1, 2, 3 = witness-v0, staking, binding script hash; a
+// binding script needs a 20-byte target or a well-formed 22-byte one) -- exactly the scripts ParsePkScript accepts
+//@ define parseable(b) = (ghost("scriptClass", strOf(b)) == 1 || ghost("scriptClass", strOf(b)) == 2 || (ghost("scriptClass", strOf(b)) == 3 && (len(ghosts("bindingTarget", strOf(b))) == 20 || (len(ghosts("bindingTarget", strOf(b))) == 22 && validTarget22(ghosts("bindingTarget", strOf(b)))))))
+//@ define outRemovable(km, set, o) = (!parseable(o.PkScript) || has(set, ghosts("scriptHash32", strOf(o.PkScript))) || !ghostb("managedAny", km, ghosts("encOf", 1, ghosts("scriptHash32", strOf(o.PkScript)))))
+//@ func (*TxStore).removableTxForRemoveWallet
+//@   props C08 C19
+//@   requires s != nil && s.ksmgr != nil && s.chainParams != nil && msgTx != nil && (forall qo_ int :: 0 <= qo_ && qo_ < len(msgTx.TxOut) ==> msgTx.TxOut[qo_] != nil)
+//@   ensures[C08] result1 == nil && result0 ==> forall qj_ int :: 0 <= qj_ && qj_ < len(msgTx.TxOut) ==> outRemovable(s.ksmgr, scriptHashSet, msgTx.TxOut[qj_])
+//@   loop#1 invariant forall qj_ int :: 0 <= qj_ && qj_ < iter_ ==> outRemovable(s.ksmgr, scriptHashSet, msgTx.TxOut[qj_])
+
+// One removal step over the credit bucket reports completion only when its iterator has reached the end of the
+// bucket (so a wallet with more credits than one step handles is not declared erased early), and deletes only
+// credits whose script hash belongs to the wallet being removed.
+//@ func (*UtxoStore).removeRelevantCredit
+//@   props C08
+//@   nopanic off
+//@   requires s != nil && s.bucketMeta != nil && tx != nil
+//@   modifies *
+//@   only Next NewIterator FetchBucket Error Release
+//@   loop#1 invariant finish
+//@   at "if err := iter.Error(); err != nil { return nil, false, err }" assert[C08] finish ==> len(ggets("iterkey", iter)) == 0
+//@   at "err = deleteRawCredit(nsCredits, itKey)" assert[C08] has(scriptHashSet, strOf(cred.scriptHash))
